@@ -32,6 +32,14 @@ def prettierLine (line : Str) : Str :=
 /-- whole run over one text: one output line per input line. -/
 def prettierText (text : Str) : List Str := (readlines text).map prettierLine
 
+/-- the lines of one source as Python's text layer delivers them: a file argument is opened in text mode (universal newlines:
+    CR LF and CR end a line like LF and are read as LF); standard input on POSIX is not translated — only LF ends a line, a CR is
+    an ordinary character of its line -/
+def sourceLines (isStdin : Bool) (text : Str) : List Str := if isStdin then splitKeepNL text else readlines text
+
+/-- the whole run of moto_prettier over its sources, standard input (named by `-`, or the only source when none is named) among them -/
+def prettierSrc (srcs : List (Bool × Str)) : List Str := (srcs.flatMap (fun p => sourceLines p.1 p.2)).map prettierLine
+
 /-! ## moto_nl -/
 
 structure NlCfg where
@@ -59,6 +67,10 @@ def nlLines (cfg : NlCfg) : Nat → List Str → List Str
 /-- `run`: the files are processed one after the other with one counter. -/
 def nlRun (cfg : NlCfg) (files : List Str) : List Str :=
   nlLines cfg cfg.start (files.flatMap readlines)
+
+/-- `run` with standard input among the sources -/
+def nlRunSrc (cfg : NlCfg) (srcs : List (Bool × Str)) : List Str :=
+  nlLines cfg cfg.start (srcs.flatMap (fun p => sourceLines p.1 p.2))
 
 /-! ## listing → ASCII BASIC, ASCII BASIC → listing -/
 
